@@ -172,7 +172,9 @@ func (c *Ctx) c19Histories(g *Gen) {
 			default:
 				port := uint16(g.u16())
 				cont.BuildNotifyNAS_TCP_PORT(port)
-				exp.List = append(exp.List, L(A("N"), N(0), N(55506), X(nil), X([]byte{byte(port >> 8), byte(port)})))
+				if port != 0 { // port 0 = "no port": nothing is appended (as the single-call suite of the layouts states)
+					exp.List = append(exp.List, L(A("N"), N(0), N(55506), X(nil), X([]byte{byte(port >> 8), byte(port)})))
+				}
 				what = "BuildNotifyNAS_TCP_PORT"
 			}
 			log = append(log, what)
